@@ -134,7 +134,10 @@ def rule_reloader_flow(ctx, p, cfg, rid="A5"):
         et = outer.target_of("Err")
         rets = set(f.return_blocks())
         er = f.reach(et, avoid={ro_.block}, include_src=True)
-        r.require(et is not None and not (er & rets) and ro_.block in f.reach(et, include_src=True), "err-keeps-polling", fn=f,
+        # Option values built on the way decide the loop test (`next = match .. { Err(e) => { report; Some(rate) } }; while let Some(..) = next`)
+        okts_ = {(outer.b, t_) for lab_, t_ in outer.labelled_edges() if lab_ != "Err"}
+        left_ = q.const_skipping_paths(f, outer.b, {ro_.block}, rets, cut_edges=okts_)
+        r.require(et is not None and not left_ and ro_.block in f.reach(et, include_src=True), "err-keeps-polling", fn=f,
                   detail="from the Err arm the loop head is reached and return is not (before the next poll)")
         r.require(any(c.callee == "handle_error" or "handle" in (c.callee or "") for c in f.calls() if c.block in er), "err-is-reported", fn=f, detail="the error is handed to the crate's error reporter")
         okt = outer.target_of("Ok")
@@ -144,7 +147,7 @@ def rule_reloader_flow(ctx, p, cfg, rid="A5"):
             if b["term"]["k"] == "switch" and b["id"] in f.reach(okt, include_src=True):
                 si = SwitchInfo(f, b["id"])
                 e = strip(si.discr)
-                if e[0] == "discr" and any(x[0] == "as" and x[2] == "Ok" for x in walk(e)):
+                if e[0] == "discr" and any(x[0] == "as" and x[2] == "Ok" for x in walk(e)) and si.target_of("Some") is not None and si.target_of("None") is not None:
                     inner = si
         if inner is None:
             raise ShapeUnrecognised("no match on the Ok payload (Option<Duration>) in run")
